@@ -194,7 +194,9 @@ theorem parser_two_span_error_formats (src : Text) (e : PErr) (he : parseLine sr
   exact C17.twoSpan_ok a.1 a.2 b.1 b.2 src.length ⟨ha.1, hab, hb.1, hb.2⟩
 
 /-! Non-vacuity: lines the parser rejects with token and column errors, among them the made-up `Eol` after a comment -/
-example : (match parseLine ("a > e / _ ;; c".toList.map Char.toNat) with | .err e => some e | _ => none) = some ⟨"ExpectedUnderline", [(4, 5)]⟩ := by decide +kernel
+example : (match parseLine ("a > e / ;; c".toList.map Char.toNat) with | .err e => some e | _ => none) = some ⟨"ExpectedUnderline", [(8, 12)]⟩ := by decide +kernel
+/-- after the repair of D13b an environment that is just `_` may be followed by a comment -/
+example : (match parseLine ("a > e / _ ;; c".toList.map Char.toNat) with | .ok (some _) => true | _ => false) = true := by decide +kernel
 example : (match parseLine ("a e".toList.map Char.toNat) with | .err e => some e | _ => none) = some ⟨"ExpectedArrow", [(3, 4)]⟩ := by decide +kernel
 example : (match parseLine ("a > e / (C)".toList.map Char.toNat) with | .err e => some e | _ => none) = some ⟨"ExpectedUnderline", [(11, 12)]⟩ := by
   decide +kernel
